@@ -42,9 +42,12 @@ MODELLED = ("modelled: hwloc/topology-synthetic.c hwloc_synthetic_process_indexe
             "PROVED for every input string: level[] index safety, loops[] write safety, array length/Nodup/permutation of accepted indexes, "
             "export length contract, one census entry per described NUMA node independent of the normal-type filters, devirt keeps the "
             "number of NUMA nodes and leaves no unbuilt level (every chain), PU/NUMA/Machine cannot be filtered out, parse_faithful (types and arities of canonical descriptions without attributes); "
-            "build_wf only for a finite family (C07_build_wf_bounded, kernel-evaluated); NOT PROVED (differential / oracle per case): "
-            "build_wf in general (wfCheck runs on the real dump of every loaded topology and on the model's dump of every Regular one), "
-            "export_fixpoint (engine oracle; F34/F35 known), parse_faithful with attributes")
+            "build_wf: 45 of the 47 WF clauses for EVERY abstract topology under the side conditions topoOK/puOK/memOK/numaOK, which the driver "
+            "evaluates on every built case (C07_build_wf_clauses; C07_build_wf_partial reduces WF to the clauses nodeset-decomposition and "
+            "siblings-ordered, which stay proved for a finite family only: C07_build_wf_bounded); export_fixpoint for the flag word "
+            "NO_ATTRS|IGNORE_MEMORY (C07_export_fixpoint_partial, re-evaluated per case against hwloc's string); NOT PROVED (differential / "
+            "oracle per case): the two remaining WF clauses in general, that the side conditions follow from buildTopo, export_fixpoint under the "
+            "other 15 flag words (engine oracle; F34/F35 known), parse_faithful with attributes")
 
 def run_engines(tier, seed):
     return eng_synthetic.run_engine(tier, seed)
